@@ -19,13 +19,18 @@ import (
 // time over a loss-free in-memory realm with a long queue. Nothing can legitimately lose such a message (no competing
 // traffic, queue of 4096, the fragmenting layer discards partial messages only after ten seconds), so an accepted
 // payload must arrive, and arrive intact.
-func TestC09FragmentBoundaries(t *testing.T) {
-	const sub = "C09.fragment_boundaries"
-	ev.Rule(sub, "rapid: fragmenting swarm (announced MTU = capacity x {2,3,10,40}) over an in-memory realm (MTU from {64,100,256,1000,1500}, queue 4096), two nodes, one message at a time, lengths k x capacity + {-1,0,+1} for generated k up to the announced MTU, plus 0, 1 and MTU; each accepted payload is awaited (patient limit 2 s). Oracle: every length <= MTU() is accepted, arrives exactly as sent and nothing else arrives; lengths above MTU() are refused. non-trivial = a length that is an exact non-zero multiple of the fragment capacity; distinct by (inner MTU, multiple, length list)")
+func TestC09FragmentBoundaries(t *testing.T) { fragmentBoundaries(t, "C09.fragment_boundaries") }
+
+// The same histories decide C10's first clause without any loss: whatever the fragmenting layer delivers is exactly a
+// payload that was sent, for every number of fragments the header can express.
+func TestC10FragmentCounts(t *testing.T) { fragmentBoundaries(t, "C10.fragment_counts") }
+
+func fragmentBoundaries(t *testing.T, sub string) {
+	ev.Rule(sub, "rapid: fragmenting swarm (announced MTU = capacity x {2,3,10,40,127,129,200,255}: every part count the one-byte header field can express, on both sides of 127/128) over an in-memory realm (MTU from {64,100,256,1000,1500}, queue 4096), two nodes, one message at a time, lengths k x capacity + {-1,0,+1} for generated k up to the announced MTU, plus 0, 1 and MTU; each accepted payload is awaited (patient limit 2 s). Oracle: every length <= MTU() is accepted, arrives exactly as sent and nothing else arrives; lengths above MTU() are refused. non-trivial = a length that is an exact non-zero multiple of the fragment capacity; distinct by (inner MTU, multiple, length list)")
 	rapid.Check(t, func(t *rapid.T) {
 		inner := rapid.SampledFrom([]int{64, 100, 256, 1000, 1500}).Draw(t, "innerMTU")
 		capPart := inner - 15
-		mult := rapid.SampledFrom([]int{2, 3, 10, 40}).Draw(t, "parts")
+		mult := rapid.SampledFrom([]int{2, 3, 10, 40, 127, 129, 200, 255}).Draw(t, "parts")
 		spec := stack.Spec{Base: "mem", BaseMTU: inner, QueueLen: 4096, Layers: []stack.Layer{{Kind: "frag", MTU: capPart * mult}}}
 		w, err := stack.Build(spec, 2, 0)
 		if err != nil {
@@ -51,6 +56,9 @@ func TestC09FragmentBoundaries(t *testing.T) {
 		exact := false
 		for i := 0; i < n; i++ {
 			k := rapid.IntRange(1, mult).Draw(t, "k")
+			if rapid.Bool().Draw(t, "nearTop") {
+				k = rapid.IntRange(max(1, mult-3), mult).Draw(t, "kTop")
+			}
 			d := rapid.SampledFrom([]int{0, 0, -1, 1}).Draw(t, "delta")
 			l := k*capPart + d
 			if l > mtu+1 {
